@@ -12,18 +12,21 @@
   StructError of an unserialisable frame and the KeyError of a direct `self.streams[...]` index are unreachable
   in these calls.  The lookup clause is `C29_lookup_*`.
 
-  `send_headers` (with header tuples that are two byte strings or two text strings) is covered separately
-  (`C29_send_headers`), under the invariant `Inv2` = the receive-path invariant + the stream table in order, which is
-  proved to hold in every state reachable from a fresh connection by the covered calls, `send_headers` and
-  `receive_data` (`C29_reachable_invariant`, `C29_every_history`).
+  `send_headers` (with header tuples that are two byte strings or two text strings) and `push_stream` are covered
+  separately (`C29_send_headers`, `C29_push_stream`), under the invariant `Inv2` = the receive-path invariant + the
+  stream table in order, which is proved to hold in every state reachable from a fresh connection by the covered calls,
+  `send_headers`, `push_stream` and `receive_data` (`C29_reachable_invariant`, `C29_every_history`).
 
-  NOT covered by a theorem (hence `_partial`): push_stream, initiate_connection, initiate_upgrade_connection.
-  For those the property is decided by the correspondence check and oracle_C29 only, and histories containing them are
-  outside `Reachable`.
+  `initiate_connection` and `initiate_upgrade_connection` (HTTP2-Settings value base64) have their own theorems too
+  (`C29_initiate_connection`, `C29_initiate_upgrade`), so that `Reachable` is closed under EVERY public call and
+  `C29_every_call` states the property for every call in every reachable state.  (`C29_step_partial` keeps its name:
+  it is the statement for the covered calls under the bare frame-size premise.)
 -/
 import H2.Proofs.ApiOk
 import H2.Proofs.ApiWF
 import H2.Proofs.SendHeaders
+import H2.Proofs.PushStream
+import H2.Proofs.Initiate
 import H2.Props.C17
 
 namespace H2.C29
@@ -179,7 +182,8 @@ theorem C29_send_headers (c : Conn) (sid : Int) (headers : List Header) (es : Bo
     rw [hm] at hapi
     have inv_of : ∀ (hpok : DecOk c'.hp) (k : Kept c c'), Inv2 c' := by
       intro hpok k
-      refine ⟨⟨⟨⟨by rw [k.ls]; exact h.1.1.1.ls, by rw [k.rs]; exact h.1.1.1.rs, by rw [k.mof]; exact h.1.1.1.mof, hpok⟩,
+      refine ⟨⟨⟨⟨by rw [k.ls]; exact h.1.1.1.ls, by rw [k.rs]; exact h.1.1.1.rs, by rw [k.mof]; exact h.1.1.1.mof, hpok,
+        by rw [k.ls]; exact h.1.1.1.ls32⟩,
         k.ni⟩, by rw [k.fb]; exact h.1.2⟩, k.so⟩
     cases r with
     | ok u =>
@@ -197,6 +201,113 @@ theorem C29_send_headers (c : Conn) (sid : Int) (headers : List Header) (es : Bo
         | h2 cls code sid' evs => exact ⟨trivial, fun _ => hos'⟩
         | py kx => exact ⟨hal, fun _ => hos'⟩
       · cases e <;> cases hf
+
+/-- **`push_stream`**, in any state satisfying the invariant and for all arguments: it returns having fed the HPACK
+    encoder exactly once and having appended to the history exactly the PUSH_PROMISE + CONTINUATION frames that carry
+    that block (each within the peer's frame size), or it raises an h2 exception and then the output buffer, the history
+    of sent frames and the compression context are what they were; either way the invariant holds afterwards — in
+    particular the stream object prepared for the promise does not stay behind IDLE -/
+theorem C29_push_stream (c : Conn) (sid promised : Int) (headers : List Header) (h : Inv2 c) :
+    StepOk c (step c (.pushStream sid promised headers)) ∧
+    Inv2 (step c (.pushStream sid promised headers)).1 ∧
+    ((step c (.pushStream sid promised headers)).2.res.isOk = true →
+        (step c (.pushStream sid promised headers)).1.hp = c.hp.afterEncode (outList c.cfg headers) ∧
+        ∃ frames, (step c (.pushStream sid promised headers)).1.sent = c.sent ++ frames ∧
+          PushFrames sid promised c.maxOutFrame frames ∧
+          (frames.filterMap Frame.fragment?).flatten = c.hp.encoded (outList c.cfg headers)) ∧
+    ((step c (.pushStream sid promised headers)).2.res.isOk = false →
+        (step c (.pushStream sid promised headers)).1.hp = c.hp) := by
+  have hapi := api_pushStream sid promised headers c h.1.1 h.2
+  unfold wp at hapi
+  simp only [step, runU]
+  cases hm : pushStream sid promised headers c with
+  | mk r c' =>
+    rw [hm] at hapi
+    have inv_of : ∀ (hpok : DecOk c'.hp) (k : Kept c c'), Inv2 c' := by
+      intro hpok k
+      refine ⟨⟨⟨⟨by rw [k.ls]; exact h.1.1.1.ls, by rw [k.rs]; exact h.1.1.1.rs, by rw [k.mof]; exact h.1.1.1.mof, hpok,
+        by rw [k.ls]; exact h.1.1.1.ls32⟩,
+        k.ni⟩, by rw [k.fb]; exact h.1.2⟩, k.so⟩
+    cases r with
+    | ok u =>
+      simp only [PushStreamOk] at hapi
+      obtain ⟨hhp, k, hfr⟩ := hapi
+      refine ⟨⟨trivial, fun hf => by cases hf⟩, inv_of (by rw [hhp]; exact decOk_afterEncode _ _ h.1.1.1.dec) k,
+        fun _ => ⟨hhp, hfr⟩, fun hf => by cases hf⟩
+    | error e =>
+      simp only [SendHeadersErr] at hapi
+      obtain ⟨hal, hos, hhp, k⟩ := hapi
+      have hos' : c'.out = c.out ∧ c'.sent = c.sent := by
+        unfold OS at hos; exact ⟨congrArg Prod.fst hos, congrArg Prod.snd hos⟩
+      refine ⟨?_, inv_of (by rw [hhp]; exact h.1.1.1.dec) k, fun hf => ?_, fun _ => hhp⟩
+      · cases e with
+        | h2 cls code sid' evs => exact ⟨trivial, fun _ => hos'⟩
+        | py kx => exact ⟨hal, fun _ => hos'⟩
+      · cases e <;> cases hf
+
+/-- **`initiate_connection`**, in any state satisfying the invariant: it returns having written the SETTINGS frame of
+    the current local settings (never a StructError), or the connection state machine refuses (ProtocolError) and
+    nothing is written; the invariant holds afterwards -/
+theorem C29_initiate_connection (c : Conn) (h : Inv2 c) :
+    StepOk c (step c .initiateConnection) ∧ Inv2 (step c .initiateConnection).1 ∧
+    ((step c .initiateConnection).2.res.isOk = true →
+        (step c .initiateConnection).1.sent = c.sent ++ [Frame.settings false c.localSettings.items]) := by
+  have hapi := api_initiateConnection c h.1.1 h.2
+  unfold wp at hapi
+  simp only [step, runU]
+  cases hm : initiateConnection c with
+  | mk r c' =>
+    rw [hm] at hapi
+    have inv_of : ∀ (hhp : c'.hp = c.hp) (k : Kept c c'), Inv2 c' := by
+      intro hhp k
+      refine ⟨⟨⟨⟨by rw [k.ls]; exact h.1.1.1.ls, by rw [k.rs]; exact h.1.1.1.rs, by rw [k.mof]; exact h.1.1.1.mof,
+        by rw [hhp]; exact h.1.1.1.dec, by rw [k.ls]; exact h.1.1.1.ls32⟩, k.ni⟩, by rw [k.fb]; exact h.1.2⟩, k.so⟩
+    cases r with
+    | ok u =>
+      simp only [InitiateOk] at hapi
+      obtain ⟨hhp, k, hsent, _⟩ := hapi
+      exact ⟨⟨trivial, fun hf => by cases hf⟩, inv_of hhp k, fun _ => hsent⟩
+    | error e =>
+      simp only [SendHeadersErr] at hapi
+      obtain ⟨hal, hos, hhp, k⟩ := hapi
+      have hos' : c'.out = c.out ∧ c'.sent = c.sent := by
+        unfold OS at hos; exact ⟨congrArg Prod.fst hos, congrArg Prod.snd hos⟩
+      refine ⟨?_, inv_of hhp k, fun hf => ?_⟩
+      · cases e with
+        | h2 cls code sid' evs => exact ⟨trivial, fun _ => hos'⟩
+        | py kx => exact ⟨hal, fun _ => hos'⟩
+      · cases e <;> cases hf
+
+/-- the HTTP2-Settings value handed to a server's `initiate_upgrade_connection` is base64 text (what Python's
+    `urlsafe_b64decode` does with anything else is not modelled) -/
+def HeaderIsBase64 (hdr : Option Bytes) : Prop := ∀ h, hdr = some h → (b64Decode h).isSome = true
+
+/-- **`initiate_upgrade_connection`**, in any state satisfying the invariant, any base64 HTTP2-Settings value: it
+    returns, or it raises an h2 exception (a value that is not a SETTINGS payload: ProtocolError; a refused setting:
+    InvalidSettingsValueError; stream 1 already used: StreamIDTooLowError; …) and then nothing has been written; the
+    invariant holds afterwards -/
+theorem C29_initiate_upgrade (c : Conn) (hdr : Option Bytes) (h : Inv2 c) (hb : HeaderIsBase64 hdr) :
+    StepOk c (step c (.initiateUpgrade hdr)) ∧ Inv2 (step c (.initiateUpgrade hdr)).1 := by
+  have hapi := api_initiateUpgrade hdr c h.1.1 h.2 hb
+  unfold wp at hapi
+  simp only [step]
+  cases hm : initiateUpgradeConnection (fun items => do let _ ← receiveSettingsFrame false items; pure ()) hdr c with
+  | mk r c' =>
+    rw [hm] at hapi
+    cases r with
+    | ok u =>
+      simp only [UpgradeOk] at hapi
+      obtain ⟨hw, hs, hfb⟩ := hapi
+      exact ⟨⟨trivial, fun hf => by cases hf⟩, ⟨hw, by rw [hfb]; exact h.1.2⟩, hs⟩
+    | error e =>
+      simp only [UpgradeErr] at hapi
+      obtain ⟨hal, hos, hw, hs, hfb⟩ := hapi
+      have hos' : c'.out = c.out ∧ c'.sent = c.sent := by
+        unfold OS at hos; exact ⟨congrArg Prod.fst hos, congrArg Prod.snd hos⟩
+      refine ⟨?_, ⟨hw, by rw [hfb]; exact h.1.2⟩, hs⟩
+      cases e with
+      | h2 cls code sid' evs => exact ⟨trivial, fun _ => hos'⟩
+      | py kx => exact ⟨hal, fun _ => hos'⟩
 
 /-! ### every history -/
 
@@ -239,22 +350,42 @@ theorem C29_covered_call_keeps_streams (c : Conn) (op : Op) (hcov : covered op =
       refine so_of_keeps Val.int (do let c ← getS; pure c.inWM.current_window_size) c ?_ h
       intro hk; wps; exact hk
 
-/-- the states reachable from a fresh connection by covered calls, `send_headers` calls with well-typed header tuples
-    and `receive_data` calls (each with whatever well-typed results the HPACK decoder produces for it) -/
+/-- the arguments of a public call are well-typed: header tuples are two byte strings or two text strings, a server's
+    HTTP2-Settings value is base64; `receive_data` is not a user call in C29's sense (a failing `receive_data` does
+    write: the GOAWAY) -/
+def UserCall : Op → Prop
+  | .recv _ => False
+  | .sendHeaders _ hs _ _ _ _ => WellTyped hs
+  | .initiateUpgrade hdr => HeaderIsBase64 hdr
+  | _ => True
+
+/-- **every public call, any state satisfying the invariant**: the call returns, or raises an h2 exception / ValueError
+    having written nothing; the invariant holds afterwards -/
+theorem C29_call (c : Conn) (op : Op) (hop : UserCall op) (h : Inv2 c) :
+    StepOk c (step c op) ∧ Inv2 (step c op).1 := by
+  by_cases hcov : covered op = true
+  · exact ⟨C29_step_partial c op hcov h.1.1.1.mof,
+      C29_covered_call_keeps_invariant c op hcov h.1, C29_covered_call_keeps_streams c op hcov h.2⟩
+  · cases op with
+    | initiateConnection => have := C29_initiate_connection c h; exact ⟨this.1, this.2.1⟩
+    | initiateUpgrade hdr => exact C29_initiate_upgrade c hdr h hop
+    | sendHeaders sid hs es pw pd pe => have := C29_send_headers c sid hs es pw pd pe h hop; exact ⟨this.1, this.2.1⟩
+    | pushStream sid p hs => have := C29_push_stream c sid p hs h; exact ⟨this.1, this.2.1⟩
+    | recv _ => exact hop.elim
+    | _ => exact absurd rfl hcov
+
+/-- the states reachable from a fresh connection by public calls with well-typed arguments (`UserCall`) and
+    `receive_data` calls (each with whatever well-typed results the HPACK decoder produces for it) -/
 inductive Reachable (cfg : Config) : Conn → Prop
   | init : Reachable cfg (Conn.init cfg)
-  | call (c : Conn) (op : Op) : Reachable cfg c → covered op = true → Reachable cfg (step c op).1
-  | headers (c : Conn) (sid : Int) (hs : List Header) (es : Bool) (pw pd : Option Int) (pe : Option Bool) :
-      Reachable cfg c → WellTyped hs → Reachable cfg (step c (.sendHeaders sid hs es pw pd pe)).1
+  | call (c : Conn) (op : Op) : Reachable cfg c → UserCall op → Reachable cfg (step c op).1
   | recv (c : Conn) (d : Bytes) (dec : List DecRes) : Reachable cfg c → C17.DecResOk dec →
       Reachable cfg (step (C17.feed c [] dec) (.recv d)).1
 
 theorem C29_reachable_invariant (cfg : Config) (c : Conn) (h : Reachable cfg c) : Inv2 c := by
   induction h with
   | init => exact ⟨C17.C17_init cfg, so_init cfg⟩
-  | call c op _ hcov ih =>
-    exact ⟨C29_covered_call_keeps_invariant c op hcov ih.1, C29_covered_call_keeps_streams c op hcov ih.2⟩
-  | headers c sid hs es pw pd pe _ hwt ih => exact (C29_send_headers c sid hs es pw pd pe ih hwt).2.1
+  | call c op _ hop ih => exact (C29_call c op hop ih).2
   | recv c d dec _ hd ih =>
     refine ⟨(C17.C17_step _ d (C17.C17_feed c [] dec ih.1 hd)).2.2, ?_⟩
     have hso : SO (C17.feed c [] dec) := ih.2
@@ -265,21 +396,42 @@ theorem C29_reachable_invariant (cfg : Config) (c : Conn) (h : Reachable cfg c) 
       rw [hr] at this
       cases r <;> exact this
 
-/-- **C29, C13 and C17 along every such history**: in every reachable state a covered call, and `send_headers` with
-    well-typed header tuples, returns or raises an allowed exception having written nothing (and, for `send_headers`,
-    having left the compression context alone); `receive_data` never ends in a Python-level exception -/
+/-- **C29 in every reachable state, for every public call**: whatever calls (with well-typed arguments) and whatever
+    bytes came before, the next call returns, or raises an h2 exception / ValueError and then the output buffer and the
+    history of sent frames are what they were -/
+theorem C29_every_call (cfg : Config) (c : Conn) (h : Reachable cfg c) (op : Op) (hop : UserCall op) :
+    StepOk c (step c op) :=
+  (C29_call c op hop (C29_reachable_invariant cfg c h)).1
+
+/-- **C29, C13 and C17 along every such history**: in every reachable state a covered call, `send_headers` with
+    well-typed header tuples, and `push_stream` returns or raises an allowed exception having written nothing (and, for
+    the two header-sending calls, having left the compression context alone); `receive_data` never ends in a
+    Python-level exception -/
 theorem C29_every_history (cfg : Config) (c : Conn) (h : Reachable cfg c) :
     (∀ op, covered op = true → StepOk c (step c op)) ∧
     (∀ sid hs es pw pd pe, WellTyped hs →
         StepOk c (step c (.sendHeaders sid hs es pw pd pe)) ∧
         ((step c (.sendHeaders sid hs es pw pd pe)).2.res.isOk = false → (step c (.sendHeaders sid hs es pw pd pe)).1.hp = c.hp)) ∧
+    (∀ sid promised hs,
+        StepOk c (step c (.pushStream sid promised hs)) ∧
+        ((step c (.pushStream sid promised hs)).2.res.isOk = false → (step c (.pushStream sid promised hs)).1.hp = c.hp)) ∧
     (∀ d dec, C17.DecResOk dec → ∀ k, (step (C17.feed c [] dec) (.recv d)).2.res ≠ .py k) := by
   have hi := C29_reachable_invariant cfg c h
-  refine ⟨fun op hcov => C29_step_partial c op hcov hi.1.1.1.mof, ?_,
+  refine ⟨fun op hcov => C29_step_partial c op hcov hi.1.1.1.mof, ?_, ?_,
          fun d dec hd => (C17.C17_step _ d (C17.C17_feed c [] dec hi.1 hd)).1⟩
-  intro sid hs es pw pd pe hwt
-  have := C29_send_headers c sid hs es pw pd pe hi hwt
-  exact ⟨this.1, this.2.2.2⟩
+  · intro sid hs es pw pd pe hwt
+    have := C29_send_headers c sid hs es pw pd pe hi hwt
+    exact ⟨this.1, this.2.2.2⟩
+  · intro sid promised hs
+    have := C29_push_stream c sid promised hs hi
+    exact ⟨this.1, this.2.2.2⟩
+
+/-- non-vacuity: a server that upgraded with a SETTINGS payload, got a request, promised a stream and answered is a
+    reachable state -/
+example : Reachable { client := false }
+    (step (step (step (Conn.init { client := false }) (.initiateUpgrade (some [65, 65, 77, 65, 65, 65, 66, 107]))).1
+      (.pushStream 1 2 [])).1 (.ping [0, 0, 0, 0, 0, 0, 0, 0])).1 :=
+  .call _ _ (.call _ _ (.call _ _ .init (fun h hh => by injection hh with hh; subst hh; decide)) trivial) trivial
 
 /-! ### the lookup clause: closed-and-forgotten → StreamClosedError, never-used higher id → NoSuchStreamError -/
 
